@@ -771,7 +771,7 @@ func runC06(c *core.Ctx, i int) {
 		}
 		c.Shape("noise|" + p.ds.S.Shape())
 	case 5: // schema text and decoder construction
-		if i%90 == 5 {
+		if i%450 == 5 {
 			// documents that do nothing but open arrays, unions or objects, cut short or closed again: the work and the
 			// memory of refusing (or accepting) them is proportional to their length
 			for _, n := range []int{100, 250, 600, 1000} {
